@@ -35,7 +35,7 @@ IdentityMutations ==
     format_other |-> "format-version", format_missing |-> "format-version", format_string |-> "format-version",
     no_name_login |-> "fields", name_control |-> "fields", nonce_short |-> "fields", nonce_missing |-> "fields",
     avatar_bad |-> "fields", clock_back |-> "clocks", clock_dropped |-> "clocks",
-    keys_garbage |-> "keys", keys_wrongtype |-> "keys",
+    keys_garbage |-> "keys", keys_wrongtype |-> "keys", keys_null |-> "keys", keys_number |-> "keys",
     merge_commit |-> "chain", ref_other_id |-> "ref", ref_bad_name |-> "ref" ]
 
 Positions == {"root", "middle", "head"}
